@@ -5,6 +5,7 @@
 import Kingdon.Properties.C01
 import Kingdon.Lemmas.SourceSigns
 import Kingdon.Lemmas.SourceBlades
+import Kingdon.Lemmas.SourceNames
 namespace Kingdon.C01
 open Kingdon Kingdon.SrcEq
 
@@ -67,6 +68,34 @@ theorem source_foreign_spelling (c : Cfg) (h : c.admissible = true) (h14 : ∀ v
     (sp : List Nat) (hsp : ∀ l ∈ sp, l < 14) (hnone : c.blade2canon sp = none) :
     Src.blade2canon (algOf c) (pyName sp) = .ok ('e' :: Py.strOfInt (Int.ofNat (2 ^ c.d)), 0) := by
   rw [blade2canon_eq c (Cfg.adm_of_admissible c h) h14 sp hsp, hnone]
+
+/-- **the configuration itself, from the source**: the naming statement of `Algebra.__post_init__` builds, for a default
+    basis, exactly the blade names of the model configuration in exactly its canonical order, and maps every bitmask to
+    its name (labels are single hex digits: start + d ≤ 16) -/
+theorem source_default_configuration (sig : List Int) (start : Nat) (hstart : start + sig.length ≤ 16) :
+    ∃ b2c, Src.post_init_names [] (Int.ofNat sig.length) (Int.ofNat start) =
+        .ok (Int.ofNat start, (Cfg.default sig start).basis.map (fun n => (pyName n, Int.ofNat ((Cfg.default sig start).binOf n))), b2c) ∧
+      ∀ I, I < 2 ^ sig.length →
+        Py.dictGet? b2c (Int.ofNat I) = some (pyName ((Cfg.default sig start).nameOf I)) :=
+  post_init_default_eq sig start hstart
+
+/-- ... and for an admissible custom basis (decimal generator labels): the asserts pass, the start index is the smallest
+    label, bitmasks follow the position of the generators in the basis, the canonical order is the given order -/
+theorem source_custom_configuration (sig : List Int) (basis : List (List Nat)) (start0 : Int)
+    (h : (Cfg.custom sig basis).admissible = true) (hne : basis ≠ [])
+    (hdec : ∀ v ∈ (Cfg.custom sig basis).vecs, v < 10) :
+    ∃ b2c, Src.post_init_names (basis.map pyName) (Int.ofNat sig.length) start0 =
+        .ok (if (Cfg.custom sig basis).vecs = [] then start0 else Int.ofNat (Cfg.custom sig basis).start,
+             basis.map (fun n => (pyName n, Int.ofNat ((Cfg.custom sig basis).binOf n))), b2c) ∧
+      ∀ I, I < 2 ^ sig.length →
+        Py.dictGet? b2c (Int.ofNat I) = some (pyName ((Cfg.custom sig basis).nameOf I)) :=
+  post_init_custom_eq sig basis start0 h hne hdec
+
+/-- a basis that is not ordered by grade is rejected by the source -/
+theorem source_rejects_unsorted_basis (basis : List (List Nat)) (d : Nat) (start0 : Int)
+    (hne : basis ≠ []) (hlen : basis.length = 2 ^ d) (huns : ¬ (basis.map List.length).Pairwise (· ≤ ·)) :
+    Src.post_init_names (basis.map pyName) (Int.ofNat d) start0 = .error "AssertionError" :=
+  post_init_rejects_unsorted basis d start0 hne hlen huns
 
 /-- non-vacuity: on 3DPGA with kingdon's named basis the translated python computes e31 * e0 -/
 example : Src.compute_sign (algOf (Cfg.custom [0, 1, 1, 1]
